@@ -5,4 +5,10 @@ import (
 	"verifharness/drv"
 )
 
-func main() { drv.Main("C19", c19.RunKeys) }
+func main() {
+	drv.Main("C19", func(o *drv.Out) {
+		c19.RunKeys(o)      // (a) store keys, segment codec
+		c19.RunSignBytes(o) // (b) sign bytes of certificates / consensus messages
+		c19.RunDecoders(o)  // (c) decoders of untrusted bytes and the handlers behind them
+	})
+}
